@@ -73,6 +73,39 @@ func Subjects(thorough bool) []Subject {
 			return sdf.Union3D(ops...), nil
 		}})
 	}
+	// unions / intersections / differences blended with every blend function of the library, three operands (the
+	// blend function is a closure installed in the shape: state captured by it is shared by all evaluators)
+	for _, bl := range []struct {
+		name string
+		f    sdf.MinFunc
+	}{{"RoundMin(0.3)", sdf.RoundMin(0.3)}, {"ChamferMin(0.3)", sdf.ChamferMin(0.3)}, {"ExpMin(8)", sdf.ExpMin(8)}, {"PowMin(4)", sdf.PowMin(4)}, {"PolyMin(0.3)", sdf.PolyMin(0.3)}} {
+		bl := bl
+		out = append(out, Subject{Name: "Union3D[" + bl.name + "](3 spheres)", Dim: 3, B3: func() (sdf.SDF3, error) {
+			s, _ := sdf.Sphere3D(0.4)
+			var ops []sdf.SDF3
+			for i := 0; i < 3; i++ {
+				ops = append(ops, sdf.Transform3D(s, sdf.Translate3d(v3.Vec{X: float64(i) * 0.6, Y: float64(i%2) * 0.3})))
+			}
+			u := sdf.Union3D(ops...)
+			u.(*sdf.UnionSDF3).SetMin(bl.f)
+			return u, nil
+		}})
+		out = append(out, Subject{Name: "Union2D[" + bl.name + "](3 circles)", Dim: 2, B2: func() (sdf.SDF2, error) {
+			var ops []sdf.SDF2
+			for i := 0; i < 3; i++ {
+				ops = append(ops, sdf.Transform2D(c1, sdf.Translate2d(v2.Vec{X: float64(i) * 0.6, Y: float64(i%2) * 0.3})))
+			}
+			u := sdf.Union2D(ops...)
+			u.(*sdf.UnionSDF2).SetMin(bl.f)
+			return u, nil
+		}})
+	}
+	out = append(out, Subject{Name: "Difference3D[PolyMax(0.3)](sphere, sphere)", Dim: 3, B3: func() (sdf.SDF3, error) {
+		s, _ := sdf.Sphere3D(0.6)
+		d := sdf.Difference3D(s, sdf.Transform3D(s, sdf.Translate3d(v3.Vec{X: 0.5})))
+		d.(*sdf.DifferenceSDF3).SetMax(sdf.PolyMax(0.3))
+		return d, nil
+	}})
 	for _, txt := range []string{"ABCDEFGHIJKL", "iii"} {
 		txt := txt
 		out = append(out, Subject{Name: fmt.Sprintf("Text2D(%q)", txt), Dim: 2, B2: func() (sdf.SDF2, error) {
